@@ -27,8 +27,24 @@ def _attr_calls(fn):
     return {x.func.attr for x in ast.walk(fn) if isinstance(x, ast.Call) and isinstance(x.func, ast.Attribute)}
 
 
+def _fingerprint(fn):
+    """names a method body mentions: attributes, called names, string constants (for telling
+    candidates of a rename apart)"""
+    out = set()
+    for x in ast.walk(fn):
+        if isinstance(x, ast.Attribute):
+            out.add('.' + x.attr)
+        elif isinstance(x, ast.Constant) and isinstance(x.value, str) and len(x.value) < 40 and x is not getattr(
+                fn.body[0], 'value', None):
+            out.add(repr(x.value))
+        elif isinstance(x, ast.Call) and isinstance(x.func, ast.Name):
+            out.add(x.func.id + '()')
+    return sorted(out)
+
+
 def snapshot(trees):
-    """table of the given module trees: class -> method -> [n params, sorted callers (Class.method)]"""
+    """table of the given module trees: class -> method -> [n params, sorted callers (Class.method),
+    fingerprint]"""
     classes = {}
     for t in trees:
         for cn, ms in _methods(t).items():
@@ -40,9 +56,19 @@ def snapshot(trees):
                 callers.setdefault(a, set()).add('%s.%s' % (cn, mn))
     tab = {}
     for cn, ms in classes.items():
-        tab[cn] = {mn: [len(fn.args.args) + len(fn.args.kwonlyargs), sorted(callers.get(mn, ()))]
+        tab[cn] = {mn: [len(fn.args.args) + len(fn.args.kwonlyargs), sorted(callers.get(mn, ())), _fingerprint(fn)]
                    for mn, fn in ms.items()}
     return tab
+
+
+_REC = []
+
+
+def recorded_methods():
+    """{class: set of method names} of the recorded tree ({} when there is no table)"""
+    if not _REC:
+        _REC.append({cn: set(ms) for cn, ms in json.loads(TABLE.read_text()).items()} if TABLE.exists() else {})
+    return _REC[0]
 
 
 def detect(trees):
@@ -67,22 +93,44 @@ def detect(trees):
         cms = cur[cn]
         missing = [m for m in oms if m not in cms and not (m.startswith('__') and m.endswith('__'))]
         fresh = [m for m in cms if m not in oms]
+        fresh_q = {'%s.%s' % (cn, n) for n in fresh}
+        taken = set()
+        # best matches first: a recorded method goes to the fresh method that resembles it most
+        scored = []
         for m in missing:
-            if m in all_defs or m in all_attrs:
-                continue          # the old name still means something somewhere
-            want_n, want_callers = oms[m]
-            cands = []
+            want_n, want_callers, want_fp = (oms[m] + [[]])[:3]
             for n in fresh:
-                if all_defs.get(n) != 1 or n in ren:
+                if all_defs.get(n) != 1:
                     continue
-                n_par, n_callers = cms[n]
+                n_par, n_callers, n_fp = cms[n]
                 if n_par != want_n:
                     continue
-                # the recorded callers, with names already mapped back
-                if (set(n_callers) & set(want_callers)) or (not n_callers and not want_callers):
-                    cands.append(n)
-            if len(cands) == 1:
-                ren[cands[0]] = m
+                # callers, looking through methods that are themselves new (extracted blocks)
+                callers = set(n_callers)
+                for _ in range(3):
+                    for c in list(callers):
+                        if c in fresh_q:
+                            callers |= set(cms[c.split('.', 1)[1]][1])
+                if not ((callers & set(want_callers)) or (not n_callers and not want_callers)):
+                    continue
+                a, b = set(want_fp), set(n_fp)
+                sim = len(a & b) / float(len(a | b) or 1)
+                scored.append((sim, m, n))
+        # accept mutual unique best matches (a recorded method and a fresh method that are each
+        # other's clearly best candidate)
+        best_for_m, best_for_n = {}, {}
+        for sim, m, n in scored:
+            best_for_m.setdefault(m, []).append((sim, n))
+            best_for_n.setdefault(n, []).append((sim, m))
+        for m, lst in best_for_m.items():
+            lst.sort(reverse=True)
+            sim, n = lst[0]
+            if sim < 0.5 or (len(lst) > 1 and lst[1][0] > sim - 0.05):
+                continue
+            back = sorted(best_for_n[n], reverse=True)
+            if back[0][1] != m or (len(back) > 1 and back[1][0] > back[0][0] - 0.05):
+                continue
+            ren[n] = m
     return ren
 
 
